@@ -699,19 +699,40 @@ thread_local! {
     static REC: RefCell<Option<Recorder>> = const { RefCell::new(None) };
 }
 
+/// Cross-thread event list: (root, [(kind, reported length, file length at that instant)]).
+static CROSS: std::sync::Mutex<Option<(PathBuf, Vec<(String, u64, u64)>)>> = std::sync::Mutex::new(None);
+pub fn cross_start(root: &Path) {
+    install_hook();
+    *CROSS.lock().unwrap_or_else(|e| e.into_inner()) = Some((root.to_path_buf(), vec![]));
+}
+pub fn cross_stop() -> Vec<(String, u64, u64)> {
+    CROSS.lock().unwrap_or_else(|e| e.into_inner()).take().map(|x| x.1).unwrap_or_default()
+}
+
 /// Installs the process-global io hook (idempotent) that routes events to the calling thread's recorder.
 pub fn install_hook() {
     static ONCE: std::sync::Once = std::sync::Once::new();
     ONCE.call_once(|| {
         grafeo_common::verif_hooks::set_io_hook(Some(Box::new(|kind: &'static str, path: &Path, len: u64| {
+            let mut taken = false;
             REC.with(|r| {
                 if let Ok(mut g) = r.try_borrow_mut()
                     && let Some(rec) = g.as_mut()
                     && path.starts_with(&rec.root)
                 {
                     rec.on_event(kind, path, len);
+                    taken = true;
                 }
             });
+            // events raised on threads the engine spawned itself (AdaptiveFlusher) go to the cross-thread list
+            if !taken
+                && let Ok(mut g) = CROSS.lock()
+                && let Some((root, list)) = g.as_mut()
+                && path.starts_with(&*root)
+            {
+                let file_len = std::fs::metadata(path).map(|m| m.len()).unwrap_or(u64::MAX);
+                list.push((kind.to_string(), len, file_len));
+            }
         })));
     });
 }
